@@ -25,7 +25,7 @@ NOTE = ["the two regular expressions enter the model as predicates: re.fullmatch
 DEP_RES = [None, r"#dep.*", r"nomatch", r".*", r"#dep1_0|#dep2_0"]
 CONFUSABLE = [["#app_bin", "#app.bin"], ["#aab", "#a+b"], ["#fw7", "#fw\\d"], ["#ab", "#a?b", "#a*b"], ["#x", "#x|#y", "#y"],
               ["file:///C:\\images\\update.bin", "#other"], ["#x[1", "#x1"], ["#(", "#)"], ["#a**", "#a"], ["#p$", "#p"], ["#^q", "#q"]]
-OMIT_RES = [None, r"zzz", r".*", r"#file.*", r"(#app|p)\d", r"http://.*"]
+OMIT_RES = [None, r"zzz", r".*", r"#file.*", r"(#app|p)\d", r"http://.*", r"#dep.*", r".*dep1.*|#app.*"]
 
 
 def members(b: bytes):
@@ -68,8 +68,7 @@ def impl_cache(b, eb, omit, dep, d):
     from suit_generator import cmd_cache_create
     inp, oc, oe = os.path.join(d, "in.suit"), os.path.join(d, "cache.bin"), os.path.join(d, "out.suit")
     for p in (oc, oe):
-        if os.path.exists(p):
-            os.unlink(p)
+        common.make_stale(p)
     with open(inp, "wb") as fh:
         fh.write(b)
     try:
@@ -77,15 +76,14 @@ def impl_cache(b, eb, omit, dep, d):
                               omit_payload_regex=omit, dependency_regex=dep)
         return {"ok": {"cache": open(oc, "rb").read().hex(), "envelope": open(oe, "rb").read().hex()}}
     except BaseException as e:  # noqa
-        return {"err": "ValueError" if isinstance(e, ValueError) else type(e).__name__, "wrote": [p for p in (oc, oe) if os.path.exists(p)]}
+        return {"err": "ValueError" if isinstance(e, ValueError) else type(e).__name__, "wrote": [p for p in (oc, oe) if common.was_written(p)]}
 
 
 def impl_extract(b, name, repl, want_file, d):
     from suit_generator import cmd_payload_extract
     inp, oe, op, rp = os.path.join(d, "in.suit"), os.path.join(d, "out.suit"), os.path.join(d, "payload.bin"), os.path.join(d, "repl.bin")
     for p in (oe, op):
-        if os.path.exists(p):
-            os.unlink(p)
+        common.make_stale(p)
     with open(inp, "wb") as fh:
         fh.write(b)
     if repl is not None:
@@ -96,10 +94,10 @@ def impl_extract(b, name, repl, want_file, d):
                                  payload_replace_path=rp if repl is not None else None)
     except BaseException as e:  # noqa
         return {"err": type(e).__name__}
-    if not os.path.exists(oe):
+    if not common.was_written(oe):
         return {"err": "no-output-envelope"}
     return {"ok": {"envelope": open(oe, "rb").read().hex(),
-                   "payload": (open(op, "rb").read().hex() if os.path.exists(op) else "<file not written>") if want_file else None}}
+                   "payload": (open(op, "rb").read().hex() if common.was_written(op) else "<file not written>") if want_file else None}}
 
 
 def work(args):
